@@ -48,6 +48,9 @@ class DataCollection:
         self.datasets: list[DataSet] = []
         self.write_to_disk = threading.Event()
         self.write_finished = threading.Event()
+        # write_finished is the single hand-off token: set <=> the writer is idle
+        # at the head of its loop and owns no buffer. Nothing is staged yet.
+        self.write_finished.set()
 
         ex_base_path = self.metadata.expand_format(base_path)
         p = pathlib.Path(ex_base_path)
@@ -139,13 +142,11 @@ class DataCollection:
 
     def stop(self):
         self.logger.info(f"Stopping collection: {self.name} -> {self.save_path}")
-        # Check if we are currently writing some data
-        if self.write_to_disk.is_set():
-            while not self.write_finished.wait(0.250):
-                pass
-
-        self.write_to_disk.clear()
-        self.write_finished.clear()
+        # Wait until the writer has completed any hand-off in progress. The writer
+        # sets write_finished as the last operation of a round (after clearing
+        # write_to_disk), so once it is set the writer touches no buffer or file.
+        while not self.write_finished.wait(0.250):
+            pass
 
         # Close all the Data Set files in the collection
         for ds in self.datasets:
@@ -192,7 +193,9 @@ class DataCollection:
             write = True
 
         if write:
-            if self.write_to_disk.is_set():
+            # Only hand over new buffers once the writer has finished the previous
+            # round completely (write_to_disk alone is cleared too early for that).
+            if not self.write_finished.is_set():
                 self.logger.warning("Unable to write fast enough.")
             else:
                 self.next_write = elapsed + DataCollection.WRITE_PERIOD
